@@ -59,7 +59,7 @@ class DefGen:
         if t == "string":
             return r.choice(["", "abc", "null"]) if nullable_all else r.choice(["", "abc"])
         if t == "float64":
-            return r.choice(["0", "0.0", 0.0])
+            return r.choice(["0.0", 0.0, "-0.0"])       # integer spellings are outside the supported subset
         if t in ("bytes", "records", "uuid"):
             return "null" if nullable_all and t != "uuid" else None
         return None
@@ -151,6 +151,8 @@ class DefGen:
             if "default" not in f:
                 if r.random() < 0.6 or needs_default or kind in ("struct",):
                     f["ignorable"] = True            # tagged ignorable without default (bool → finding G)
+            elif r.random() < 0.5:
+                f["ignorable"] = True                # ignorable *and* an explicit default: the explicit one wins
             if kind == "prim" and f.get("default") == "null":
                 f["nullableVersions"] = f"{ta}+"
             # a tagged nullable field needs None as its (explicit) default
@@ -168,7 +170,7 @@ class DefGen:
     def gen_def(self, kind: str, key: int | None):
         r = self.rng
         lo = 0
-        hi = r.choice([0, 1, 2, 3, 5])
+        hi = r.choice([0, 1, 2, 3, 5, 5, 11, 13])       # two-digit versions too (string vs number ordering)
         c = r.random()
         if c < 0.25:
             flex, flex_lo = "none", None
